@@ -830,6 +830,9 @@ func (e *e1) isRelevant(fc *Term) bool {
 	case "called", "orig":
 		return true
 	}
+	if strings.HasPrefix(fc.S, "did") {
+		return true
+	}
 	k := fc.Key()
 	if r, ok := e.relCache[k]; ok {
 		return r
